@@ -396,6 +396,8 @@ func (fr *Frame) preludeCall(st *State, name string, fn *ssa.Function, args []Va
 		elem := chanElem(cc.Args[0].Type())
 		es := ex.ctx.SortOf(elem)
 		return Val{T: Select(Select(ex.get(st, "ChanRecv_"+typeKey(elem), ArraySort(SRef, ArraySort(SInt, es))), args[0].T), args[1].T)}, true
+	case "__drained":
+		return Val{T: Select(ex.get(st, "ChanDrained_"+typeKey(chanElem(cc.Args[0].Type())), ArraySort(SRef, SBool)), args[0].T)}, true
 	case "__closed":
 		return Val{T: Select(ex.get(st, "ChanClosed_"+typeKey(chanElem(cc.Args[0].Type())), ArraySort(SRef, SBool)), args[0].T)}, true
 	case "__held":
